@@ -304,6 +304,15 @@ func VH_Migrate(a []int) {
 	set.Status.CurrentRevision = cur.Name
 	set.Status.UpdateRevision = rB.Name
 	set.Status.Replicas = int32(N)
+	// the garbage collector orphans the dependents of the deleted built-in set one
+	// object at a time: a revision may still carry the built-in owner reference
+	for _, r := range w.apiRevs {
+		if sym.Pick("rev.gc", 2) == 1 {
+			r.OwnerReferences = vOwnerRef("StatefulSet", vSetName, "uid-builtin")
+			r.OwnerReferences[0].APIVersion = "apps/v1"
+			sym.Cover("a revision is orphaned later than the others")
+		}
+	}
 	builtinOwned := sym.Pick("gc", 2) == 1 // the garbage collector has not orphaned the pods yet
 	for i := 0; i < N; i++ {
 		pod := newStatefulSetPod(set, i)
@@ -329,10 +338,18 @@ func VH_Migrate(a []int) {
 	w.apiSets = []*apps.StatefulSet{set}
 	ssc := vNewController(w)
 	key := vNS + "/" + vSetName
-	for round := 0; round < 3; round++ {
+	for round := 0; round < 4; round++ {
 		w.refresh()
 		err := ssc.sync(key)
 		sym.Note("round", round, "ok", err == nil)
+		for i, r := range w.apiRevs {
+			if len(r.OwnerReferences) == 1 && r.OwnerReferences[0].UID == "uid-builtin" {
+				c := r.DeepCopy()
+				c.OwnerReferences = nil
+				w.apiRevs[i] = c
+				break // one object per garbage-collector pass
+			}
+		}
 		// the garbage collector orphans the dependents of the deleted built-in set
 		for i, p := range w.apiPods {
 			if len(p.OwnerReferences) == 1 && p.OwnerReferences[0].UID == "uid-builtin" {
